@@ -1,19 +1,22 @@
 #!/usr/bin/env python3
 """C15 — merge flattens exactly one level; in is substring / deep-membership test.
 
-  K1  merge: one forward pass over the operand list itself (the iterator derives
-      from the operand-vector parameter, nothing is substituted for it); per
-      operand kind (variant specialisation of the per-operand code): an Array
-      contributes a clone of each of its elements in order (one non-nested pass,
-      the elements' own kinds never inspected), every other kind contributes a
-      clone of the operand itself; merge is not recursive; the result vector is
-      only appended to (no dedup / sort / retain / truncate / insert / remove);
+  K1  merge, read as a *stream term* (rules/x_streams.py — fold + for_each, loops + push / extend, flat_map + collect,
+      slice-view helpers are one representation): the vector it returns is `for each operand x of the operand list
+      itself, in order: what x contributes` and nothing else (one pass, nothing substituted for the operand list, no
+      adaptor that drops / reorders elements, no loop that can stop early); per assumed kind of x (helpers are read
+      under that kind): an Array contributes its elements, every other kind itself — identified up to clone and
+      reference plumbing; merge is not recursive; the result vector is only appended to (no dedup / sort / retain /
+      truncate / insert / remove).  Inspecting more than the outer kind of an operand shows as a contribution that is
+      not one of the two (the former K1.kind-switch is subsumed by K1.contribution);
   K2  in: operand 0 is the needle, operand 1 the haystack; by kind of the
       haystack (and of the needle for strings): Null → constant false; Array →
       membership of the needle among the elements under the membership equality;
       String × String needle → exactly str::contains(haystack, needle) (no other
       path to a boolean); String × other needle → Err; Bool/Number/Object → Err;
-      no byte-length / character-count mix (R-UNITS);
+      no byte-length / character-count mix (R-UNITS); the outcomes are read from path summaries, context-sensitively
+      through private helpers (a helper's answer under the assumed kinds decides `helper(..)?` and Option switches),
+      loops by kind specialisation + the membership-loop reader; an outcome that is not read is UNDECIDED;
   K3  membership equality is not spelling-sensitive (A1): `in` itself never uses
       serde_json's Value/Number equality or slice::contains on values; the
       membership function compares Number×Number exactly (integer pairs as
@@ -21,8 +24,10 @@
       structurally into Array×Array (same length, element-wise) and
       Object×Object (same length, key-wise via Map::get — key order irrelevant),
       and uses plain equality only where no number can hide (different kinds or
-      Null/Bool/String).
-Not decided: that the numeric comparison equals deep numeric equality on all values.
+      Null/Bool/String); every way the code goes on when Map::get answers None (combinator default, match arm,
+      let-else, early return out of a loop) yields false — going round the loop again is a violation.
+Not decided: that the numeric comparison equals deep numeric equality on all values; the sense in which the
+recursive answers are combined (a dropped negation in the element-wise / key-wise comparison is not caught).
 """
 import re
 from .core import (callee_of, callee_path, strip_refs, strip_payload, show_expr, const_value, expr_mentions, op_const)
